@@ -847,7 +847,7 @@ class DcmMetaExtension(Nifti1Extension):
         merging of values with different classifications.'''
         values, curr_class = self.get_values_and_class(key)
         if curr_class == new_class:
-            return values
+            return deepcopy(values)
 
         if not new_class in self._preserving_changes[curr_class]:
             raise ValueError("Classification change would lose data.")
@@ -878,11 +878,13 @@ class DcmMetaExtension(Nifti1Extension):
 
 
         if per_slice:
-            result = values * mult_fact
+            result = []
+            for _ in range(mult_fact):
+                result.extend(deepcopy(values))
         else:
             result = []
             for value in values:
-                result.extend([deepcopy(value)] * mult_fact)
+                result.extend([deepcopy(value) for _ in range(mult_fact)])
 
         if new_class == ('global', 'const'):
             result = result[0]
